@@ -52,6 +52,9 @@ def cases(draw):
             ops.append({"op": "tick_fault", "how": draw(st.sampled_from(["denied", "denied", "oserror"])), "k": draw(st.integers(0, 6))})
         else:
             ops.append({"op": "restart"})
+    if draw(st.integers(0, 3)) == 0:
+        # an id is handed out, then start_persistence() is called a second time, nothing else happens, clean restart
+        ops += [{"op": "tick"}, {"op": "idreq", "src": 255, "child": 255}, {"op": "start_again"}, {"op": "restart"}, {"op": "idreq", "src": 255, "child": 255}]
     if draw(st.booleans()):
         # force the classic shape: request, clean restart, request
         ops += [{"op": "idreq", "src": 255, "child": 255}, {"op": "restart"}, {"op": "idreq", "src": 255, "child": 255}]
@@ -93,6 +96,8 @@ def check_case(case, stats=None):
                 layer = faultfs.Layer(deny_access=range(64)) if op["how"] == "denied" else faultfs.Layer(faultfs.FaultPlan(op["k"], "fail"))
                 with layer:
                     life.tick()  # whatever the schedule does with the failure: ids must stay unique afterwards
+            elif kind == "start_again":
+                life.start()  # the application calls start_persistence() once more on the running gateway
             elif kind == "restart":
                 try:
                     life.stop()
